@@ -38,9 +38,9 @@ struct In {
 	bool operator==(const In& o) const { return q == o.q && t == o.t; }
 };
 struct Cls {
-	int64_t a = 1; std::string s; std::vector<int> v; In in; std::vector<In> arr; std::map<std::string, int> m; std::optional<std::string> o; std::u16string w; std::unique_ptr<In> p; double d = 0.5;
-	template <class A> void Serialize(A& ar) { ar << KeyValue("a", a) << KeyValue("s", s, MinSize(0)) << KeyValue("v", v) << KeyValue("in", in) << KeyValue("arr", arr) << KeyValue("m", m) << KeyValue("o", o) << KeyValue("w", w) << KeyValue("p", p) << KeyValue("d", d); }
-	bool operator==(const Cls& x) const { return a == x.a && s == x.s && v == x.v && in == x.in && arr == x.arr && m == x.m && o == x.o && w == x.w && (!p == !x.p) && (!p || *p == *x.p) && d == x.d; }
+	int64_t a = 1; std::string s; std::vector<int> v; In in; std::vector<In> arr; std::map<std::string, int> m; std::optional<std::string> o; std::u16string w; std::unique_ptr<In> p; double d = 0.5; std::vector<uint8_t> bin; std::vector<std::vector<char>> bins;
+	template <class A> void Serialize(A& ar) { ar << KeyValue("a", a) << KeyValue("s", s, MinSize(0)) << KeyValue("v", v) << KeyValue("in", in) << KeyValue("bin", bin) << KeyValue("arr", arr) << KeyValue("m", m) << KeyValue("o", o) << KeyValue("w", w) << KeyValue("p", p) << KeyValue("bins", bins) << KeyValue("d", d); }
+	bool operator==(const Cls& x) const { return a == x.a && s == x.s && v == x.v && in == x.in && arr == x.arr && m == x.m && o == x.o && w == x.w && (!p == !x.p) && (!p || *p == *x.p) && d == x.d && bin == x.bin && bins == x.bins; }
 };
 // same document layout without the required member "q" (to build documents whose load has to report missing fields)
 struct InNoQ { std::string t; template <class A> void Serialize(A& a) { a << KeyValue("t", t); } };
@@ -58,11 +58,13 @@ In gen_in(vf::Src& s, bool ne) { In r; r.q = static_cast<int>(s.draw(100000)) - 
 Cls gen_cls(vf::Src& s, int archId) {
 	const bool ne = archId == XML; Cls c; c.a = s.integer<int64_t>(); c.s = gen_str(s, 60, ne); for (size_t n = s.len(6) + (ne ? 1 : 0); n > 0; n--) c.v.push_back(static_cast<int>(s.draw(1000)));
 	c.in = gen_in(s, ne); for (size_t n = s.len(4) + (ne ? 1 : 0); n > 0; n--) c.arr.push_back(gen_in(s, ne)); for (size_t n = s.len(4) + (ne ? 1 : 0), k = 0; k < n; k++) c.m["k" + std::to_string(k) + std::string(s.draw(30), 'k')] = static_cast<int>(s.draw(100));
-	if (ne || s.coin()) c.o = gen_str(s, 50, ne); { std::string w = gen_str(s, 30, ne); c.w = BitSerializer::Convert::To<std::u16string>(w); } if (ne || s.coin()) c.p = std::make_unique<In>(gen_in(s, ne)); c.d = static_cast<double>(s.draw(100000)) / 8; return c;
+	if (ne || s.coin()) c.o = gen_str(s, 50, ne); { std::string w = gen_str(s, 30, ne); c.w = BitSerializer::Convert::To<std::u16string>(w); } if (ne || s.coin()) c.p = std::make_unique<In>(gen_in(s, ne)); c.d = static_cast<double>(s.draw(100000)) / 8;
+	for (size_t n = s.draw(41) + (ne ? 1 : 0); n > 0; n--) c.bin.push_back(static_cast<uint8_t>(s.draw(256))); for (size_t n = s.len(3) + (ne ? 1 : 0); n > 0; n--) { std::vector<char> b; for (size_t k = 1 + s.draw(20); k > 0; k--) b.push_back(static_cast<char>(s.draw(256))); c.bins.push_back(b); }
+	return c;
 }
 std::vector<Row> gen_rows(vf::Src& s) { std::vector<Row> r; for (size_t n = 1 + s.len(4); n > 0; n--) { Row x; x.a = gen_str(s, 50, false); x.n = static_cast<int>(s.draw(100000)); x.b = gen_str(s, 50, false); x.d = static_cast<double>(s.draw(1000)) / 4; r.push_back(x); } return r; }
 
-Cls gen_copy(const Cls& v) { Cls c; c.a = v.a; c.s = v.s; c.v = v.v; c.in = v.in; c.arr = v.arr; c.m = v.m; c.o = v.o; c.w = v.w; if (v.p) c.p = std::make_unique<In>(*v.p); c.d = v.d; return c; }
+Cls gen_copy(const Cls& v) { Cls c; c.a = v.a; c.s = v.s; c.v = v.v; c.in = v.in; c.arr = v.arr; c.m = v.m; c.o = v.o; c.w = v.w; if (v.p) c.p = std::make_unique<In>(*v.p); c.d = v.d; c.bin = v.bin; c.bins = v.bins; return c; }
 std::vector<Row> gen_copy(const std::vector<Row>& v) { return v; }
 
 // ---- failing stream buffers ---------------------------------------------------------------------------------------------------------
@@ -207,7 +209,7 @@ struct BadText { std::string ok1 = "fine"; std::string bad; std::string ok2 = "a
 
 #define GEN_CLS(id) [](vf::Src& s) { return gen_cls(s, id); }
 #define GEN_ROWS [](vf::Src& s) { return gen_rows(s); }
-#define R_TRUNC "object with 10 members (int64, strings beyond the small-string size, vector, nested object with validators, array of objects, map, optional, UTF-16 string, unique_ptr, double) of generated sizes, saved and then loaded from every strict prefix of the document (one position, a window of <= 16, or all positions) from memory, istringstream, short-read and non-seekable streams under both mismatch policies; oracle: an exception derived from std::exception reaches the caller (MessagePack: always; other formats may accept a prefix that is a document), the child process neither terminates, crashes, exceeds its CPU budget nor leaks; non-trivial = more than one position"
+#define R_TRUNC "object with 12 members (int64, strings beyond the small-string size, vector, nested object with validators, byte container, array of objects, map, optional, UTF-16 string, unique_ptr, array of byte containers, double) of generated sizes, saved and then loaded from every strict prefix of the document (one position, a window of <= 16, or all positions) from memory, istringstream, short-read and non-seekable streams under both mismatch policies; oracle: an exception derived from std::exception reaches the caller (MessagePack: always; other formats may accept a prefix that is a document), the child process neither terminates, crashes, exceeds its CPU budget nor leaks; non-trivial = more than one position"
 VF_PROPERTY(truncated_msgpack, 4, R_TRUNC) { run_trunc<MsgPackArchive, Cls>(c, MSGPACK, GEN_CLS(MSGPACK)); }
 VF_PROPERTY(truncated_json, 2, "same through JSON") { run_trunc<JsonArchive, Cls>(c, JSON, GEN_CLS(JSON)); }
 VF_PROPERTY(truncated_xml, 2, "same through XML") { run_trunc<XmlArchive, Cls>(c, XML, GEN_CLS(XML)); }
